@@ -29,6 +29,7 @@ class Space:
         self.max_dev = max_dev or {}   # tier -> max number of non-default cost-1 dims (tighter than the global bound)
         self.klass = klass   # (non-default minimal params, minimal params, rule) -> class string | None
         self.component = None  # (rule, class string) -> component of the finding key (default: the rule id)
+        self.tol = None        # (params, rule) -> factor on the comparison tolerance (original computes in a narrower type)
         self._dims = dims
         self.build = build
         self.near = near
